@@ -62,3 +62,79 @@ Theorem c14_destination_only_entries_untouched : forall now d s d' lg e,
   merge now d s = Ok (d', lg) ->
   In e (ents (db_root d')) \/ tombstoned_and_logged s lg (e_uuid e).
 Proof. exact merge_dest_only. Qed.
+
+(* ---------------- placement, group LWW, creation at tree level (db/MergePlace*.v) ----------------
+   [rows root] lists (parent UUID, own fields) for every node below the root; [srows deleted root]
+   adds the flag "lies under a group the destination deleted".  For replicas of one database with
+   pairwise distinct UUIDs: an entry/group present on both sides ends up under the parent chosen by
+   the side with the strictly newer LocationChanged time (never moved below a destination-deleted
+   group; a group is relocated exactly when the event is logged - the relocation guard against
+   moving a group into its own subtree is the recorded finding F15b); groups carry the fields of
+   the side that modified them last - the root group included (since the repair F19); nodes that
+   exist only in the source are created under the parent with the same UUID. *)
+From KP Require Import MergeSelf MergePlaceRows MergePlaceWalk MergePlaceGuard MergePlace.
+Theorem c14_entry_placement : forall now d s d' lg f pd ed ps es,
+  uuids_unique (db_children d) -> uuids_ok s -> gi_uuid (db_root_info d) = gi_uuid (db_root_info s) ->
+  In (pd, IE ed) (rows (db_root d)) -> In (f, (ps, IE es)) (srows (db_deleted d) (db_root s)) ->
+  e_uuid ed = e_uuid es -> deleted_contains (db_deleted s) (e_uuid es) = false ->
+  merge now d s = Ok (d', lg) ->
+  (ps = pd -> parent_of (e_uuid es) (db_root d') = Some pd) /\
+  (ps <> pd -> f = false -> lc_src (e_times es) > lc_dst now (e_times ed) ->
+     parent_of (e_uuid es) (db_root d') = Some ps /\
+     exists e', entry_at (e_uuid es) (db_root d') = Some e' /\ t_lc (e_times e') = Some (lc_src (e_times es))) /\
+  (f = true \/ lc_src (e_times es) <= lc_dst now (e_times ed) -> parent_of (e_uuid es) (db_root d') = Some pd) /\
+  (In (Ev EntryLocationUpdated (e_uuid es)) lg -> parent_of (e_uuid es) (db_root d') = Some ps) /\
+  (~ In (Ev EntryLocationUpdated (e_uuid es)) lg -> parent_of (e_uuid es) (db_root d') = Some pd).
+Proof. exact entry_parent_cases. Qed.
+
+Theorem c14_group_placement : forall now d s d' lg f pd gd ps gs,
+  uuids_unique (db_children d) -> uuids_ok s -> gi_uuid (db_root_info d) = gi_uuid (db_root_info s) ->
+  In (pd, IG gd) (rows (db_root d)) -> In (f, (ps, IG gs)) (srows (db_deleted d) (db_root s)) ->
+  gi_uuid gd = gi_uuid gs -> deleted_contains (db_deleted s) (gi_uuid gs) = false ->
+  merge now d s = Ok (d', lg) ->
+  (ps = pd -> parent_of (gi_uuid gs) (db_root d') = Some pd) /\
+  (f = true \/ lc_src (gi_times gs) <= lc_dst now (gi_times gd) -> parent_of (gi_uuid gs) (db_root d') = Some pd) /\
+  (In (Ev GroupLocationUpdated (gi_uuid gs)) lg ->
+     parent_of (gi_uuid gs) (db_root d') = Some ps /\ f = false /\
+     lc_dst now (gi_times gd) < lc_src (gi_times gs) /\
+     exists g', group_of (gi_uuid gs) (db_root d') = Some g' /\ t_lc (gi_times g') = Some (lc_src (gi_times gs))) /\
+  (~ In (Ev GroupLocationUpdated (gi_uuid gs)) lg -> parent_of (gi_uuid gs) (db_root d') = Some pd).
+Proof. exact group_parent_cases. Qed.
+
+Theorem c14_created_under_same_parent : forall now d s d' lg f ps it,
+  uuids_unique (db_children d) -> uuids_ok s -> gi_uuid (db_root_info d) = gi_uuid (db_root_info s) ->
+  In (f, (ps, it)) (srows (db_deleted d) (db_root s)) -> ~ In (iu it) (all_uuids (db_root d)) ->
+  merge now d s = Ok (d', lg) ->
+  if created_ok (db_deleted d) f it
+  then (In (ps, it) (rows (db_root d')) \/ removed_logged lg (iu it)) /\
+       (deleted_contains (db_deleted s) (iu it) = false ->
+        In (ps, it) (rows (db_root d')) /\ parent_of (iu it) (db_root d') = Some ps)
+  else ~ In (iu it) (all_uuids (db_root d')).
+Proof. exact merge_creates. Qed.
+
+Theorem c14_group_lww_tree : forall now d s d' lg pd gd ps gs ld ls,
+  uuids_unique (db_children d) -> uuids_ok s ->
+  ~ In (gi_uuid (db_root_info d)) (uus (db_children s)) ->
+  In (pd, IG gd) (rows (db_root d)) -> In (ps, IG gs) (rows (db_root s)) -> gi_uuid gd = gi_uuid gs ->
+  t_lm (gi_times gd) = Some ld -> t_lm (gi_times gs) = Some ls -> ld <> ls ->
+  merge now d s = Ok (d', lg) ->
+  exists g' p',
+    (In (p', IG g') (rows (db_root d')) \/ removed_logged lg (gi_uuid gs)) /\
+    (deleted_contains (db_deleted s) (gi_uuid gs) = false -> group_of (gi_uuid gs) (db_root d') = Some g') /\
+    gi_uuid g' = gi_uuid gs /\
+    gi_data g' = (if ld <? ls then gi_data gs else gi_data gd) /\
+    t_lm (gi_times g') = Some (Z.max ld ls) /\
+    t_rest (gi_times g') = (if ld <? ls then t_rest (gi_times gs) else t_rest (gi_times gd)).
+Proof. exact merge_group_lww_digest. Qed.
+
+Theorem c14_root_group_lww : forall now d s d' lg ld ls,
+  uuids_unique (db_children d) -> uuids_ok s -> gi_uuid (db_root_info d) = gi_uuid (db_root_info s) ->
+  t_lm (gi_times (db_root_info d)) = Some ld -> t_lm (gi_times (db_root_info s)) = Some ls -> ld <> ls ->
+  merge now d s = Ok (d', lg) ->
+  gi_uuid (db_root_info d') = gi_uuid (db_root_info d) /\
+  gi_data (db_root_info d') = (if ld <? ls then gi_data (db_root_info s) else gi_data (db_root_info d)) /\
+  t_lm (gi_times (db_root_info d')) = Some (Z.max ld ls) /\
+  (t_lc (gi_times (db_root_info d)) <> None -> t_lc (gi_times (db_root_info d')) = t_lc (gi_times (db_root_info d))) /\
+  t_rest (gi_times (db_root_info d')) = (if ld <? ls then t_rest (gi_times (db_root_info s)) else t_rest (gi_times (db_root_info d))) /\
+  (In (Ev GroupUpdated (gi_uuid (db_root_info d))) lg <-> ld < ls).
+Proof. exact root_group_lww. Qed.
